@@ -35,7 +35,7 @@ CHECKS = {
     "C04": (
         "model_checking",
         A_TECH + "; expected outcome from an independent cycle analysis of the configuration",
-        "All rings of 2-3 (choice mode) and 4-5 (fixed step lists) components with 17 kinds of delay material on every link position/subset, chords, tails, a pull-based node and all/rotated listing orders are executed exhaustively; an unbroken cycle must end in the circular-coupling error (never hang, recursion, TypeError, time/data error or completion), a sufficiently delayed one must complete with the C01/C02 monitors green on every transition. Connect-phase cycles (rings of 2-3 components whose initial data or output metadata depend on the predecessor, all mode combinations and listing orders) must end in the circular-coupling error naming exactly the stuck components; a call cap turns a hang into a violation.",
+        "All rings of 2-3 (choice mode) and 4-5 (fixed step lists) components with 17 kinds of delay material on every link position/subset, chords, tails, a pull-based node and all/rotated listing orders are executed exhaustively; an unbroken cycle must end in the circular-coupling error (never hang, recursion, TypeError, time/data error or completion), a sufficiently delayed one must complete with the C01/C02 monitors green on every transition. Connect-phase cycles (rings of 2-3 components whose initial data or output metadata depend on the predecessor, all mode combinations and listing orders) must end in the circular-coupling error naming exactly the stuck components; a call cap turns a hang into a violation. Also rings through a pull-based component that reaches its consumer over two parallel links (one delayed, one not / equal delays) and configurations explored after a first run in the same process.",
         A_NOTE + " Delay adapters upstream of a push-notified adapter are not counted as delay material (they cannot take effect).",
         "DESIGN.md section 4, C04",
     ),
@@ -49,14 +49,14 @@ CHECKS = {
     "C06": (
         "model_checking",
         "exhaustive enumeration of dependency shapes of the connect phase, each executed through the real Composition.connect under all component listing orders and link creation orders; least-fixpoint reference of derivable exchange items and a per-call status rule as oracles; call cap for termination",
-        "Every shape of metadata / initial-data dependency within the bound is run under every schedule the iterative connect can take (all listing and link orders); the outcome must be success with complete infos, initial publications at composition start and own start and exact initial values, or a circular-coupling error naming exactly the components the fixpoint model cannot complete; every single connect call's reported status is checked against what was observably exchanged.",
+        "Every shape of metadata / initial-data dependency within the bound is run under every schedule the iterative connect can take (all listing and link orders); the outcome must be success with complete infos, initial publications at composition start and own start and exact initial values, or a circular-coupling error naming exactly the components the fixpoint model cannot complete; every single connect call's reported status is checked against what was observably exchanged. Also: transfer rules added after the connector was created (each composition preceded by one with such a relay in the same process) and initial data that is refused once and handed in again.",
         "Trusted: fixpoint model and harness nodes in harness/cnode.py; <=3 components (<=2 slots per side), offsets {0,1,2}; helper layer: <=3 slots (quick) / <=4 (thorough) on one component with scripted peers.",
         "DESIGN.md section 3 (engine B) and section 4, C06",
     ),
     "C07": (
         "exploration",
         "bounded-exhaustive enumeration of producer/consumer metadata states (complete sub-products over set/unset time, grid kinds, units, mask kinds, extra keys; one or two consumers; direct, Scale and metadata-rewriting adapters; a relay with transfer rules; all listing orders) through the real Composition.connect against an independent agreement predicate",
-        "Each sub-product is enumerated completely: where the ends agree on a direct/Scale link connect() must succeed with a complete input info that describes the delivered locations, has convertible units and carries the other side's values for unset fields in both directions; where they conflict it must raise FinamMetaDataError with no data at any consumer; any other exception class is reported.",
+        "Each sub-product is enumerated completely: where the ends agree on a direct/Scale link connect() must succeed with a complete input info that describes the delivered locations, has convertible units and carries the other side's values for unset fields in both directions; where they conflict it must raise FinamMetaDataError with no data at any consumer; any other exception class is reported. Also grid objects with a history: three persistent grid objects serve all sequences of 3-4 events (data-location change through the public setter, link directly / through Scale / through RegridNearest in a new composition of the same process); every attempt must end like the same attempt on freshly built grids.",
         "Trusted: the agreement predicate in checks/c07.py. The five-field full product is not crossed (sub-products: grid x mask, time x units x extra key, grid x units x time). Cases the statement does not classify (producer mask unset, NONE vs empty mask, order-dependent fan-out fills) accept either outcome.",
         "DESIGN.md section 4, C07",
     ),
@@ -84,21 +84,21 @@ CHECKS = {
     "C15": (
         "exploration",
         "bounded-exhaustive enumeration of all ordered layout pairs (order x axes_reversed x per-axis direction) in 1-3 D for cell/point data and uniform/rectilinear/ESRI grids against coordinate arithmetic, including delivery over a real Output->Input link",
-        "Finite product enumerated completely: canonical round trip and xyz-increasing indexing, compatible_with against equality of independently computed data-point sets (plus different geometry/location/dimension/class), and on a real link (with/without time axis, plain/masked) every value and mask bit must arrive at the same physical coordinate.",
+        "Finite product enumerated completely: canonical round trip and xyz-increasing indexing, compatible_with against equality of independently computed data-point sets (plus different geometry/location/dimension/class), and on a real link (with/without time axis, plain/masked) every value and mask bit must arrive at the same physical coordinate. Also one output read by two inputs with layouts of their own (all 2-D layout triples, either order of metadata exchange).",
         "Trusted: the arithmetic coordinate reference shared with C14; lengths (4,), (3,4), (2,3,4).",
         "DESIGN.md section 4, C15",
     ),
     "C16": (
         "exploration",
         "bounded-exhaustive enumeration of source/target grid pairs (all layout pairs, grid classes, locations) and ALL masks of small grids through the real RegridNearest/RegridLinear adapters on a link; brute-force nearest-neighbour and convex-hull/affine-field reference",
-        "Nearest: every unmasked target must carry the value of a Euclidean-nearest unmasked source (any on ties), masked targets stay masked, poison values under the source mask must never appear; identity between layouts. Linear (unstructured / masked sources): affine fields reproduced inside the hull of the unmasked sources, weights in [0,1] and zero on masked sources (unit vectors), outside masked or nearest-filled.",
+        "Nearest: every unmasked target must carry the value of a Euclidean-nearest unmasked source (any on ties), masked targets stay masked, poison values under the source mask must never appear; identity between layouts. Linear (unstructured / masked sources): affine fields reproduced inside the hull of the unmasked sources, weights in [0,1] and zero on masked sources (unit vectors), outside masked or nearest-filled. Also two inputs behind one regridding adapter (masked and unmasked sources and targets).",
         "Trusted: brute-force reference; scipy Delaunay for hull membership (targets within 1e-7 of the boundary excluded); data_points order verified by C14. Grids with <=18 data locations; the structured unmasked linear path is outside the statement.",
         "DESIGN.md section 4, C16",
     ),
     "C17": (
         "exploration",
         "bounded-exhaustive enumeration of all ordered unit pairs of a 71-unit hand-written catalogue under three memo regimes plus all query sequences of length <=3 over a sub-catalogue, against a reference table that does not use pint",
-        "Every ordered pair is queried through compatible_units, equivalent_units, to_units, prepare and a real link, cold / after the reversed pair / fully warm; every query sequence up to length 3 from a cold memo must give the reference answer at every position, so no answer depends on what was asked before.",
+        "Every ordered pair is queried through compatible_units, equivalent_units, to_units, prepare and a real link, cold / after the reversed pair / fully warm; every query sequence up to length 3 from a cold memo must give the reference answer at every position, so no answer depends on what was asked before. Also all query sequences of length <= 3 over equivalent units spelled through other units (mm, L/m2, Hz, 1/s) with prepare as a fourth query.",
         "Trusted: the hand-written table (exponent vectors, exact rational factors, offsets); rtol 1e-9; angles dimensionless.",
         "DESIGN.md section 4, C17",
     ),
@@ -119,7 +119,7 @@ CHECKS = {
     "C20": (
         "model_checking",
         A_TECH + "; plus exhaustive event sequences on a static output and an exhaustive product for WeightedSum",
-        "Static slots: every push/pull sequence up to depth 4/5 with all request-time kinds on real slots. Pull-based components: all schedules of compositions with one or two pull-based components are explored, each provider invocation must carry exactly the (delay-shifted) request time of the consumer and the C01 monitors stay green. WeightedSum: all unit combinations x consumer step pairs x listing orders against an arithmetic reference.",
+        "Static slots: every push/pull sequence up to depth 4/5 with all request-time kinds on real slots. Pull-based components: all schedules of compositions with one or two pull-based components are explored, each provider invocation must carry exactly the (delay-shifted) request time of the consumer and the C01 monitors stay green. WeightedSum: all unit combinations x consumer step pairs x listing orders against an arithmetic reference. Also the mergers with one (thorough: two) transient fault on a link into the merger (k-th request refused once before/after the source was asked, request repeated).",
         A_NOTE,
         "DESIGN.md section 4, C20",
     ),
@@ -140,7 +140,7 @@ CHECKS = {
     "C13": (
         "model_checking",
         "explicit-state BFS over all push/pull interleavings on real chains of 1-3 delay adapters (fixpoint for fixed delays, depth-bounded for history-dependent adapters); the time argument observed at the source output and the delivered value are compared with the reference composition of the shift maps",
-        "Every chain of DelayFixed/DelayToPull/DelayToPush (mixed with Scale) from the stated alphabet is driven through all request sequences within the bound; requested time at the source = max(t-d,start) / n-th previous request - extra / min(t,newest), composed along the chain. The scheduler clause is decided by C02's request-time monitor on the same chains inside Composition.run.",
+        "Every chain of DelayFixed/DelayToPull/DelayToPush (mixed with Scale) from the stated alphabet is driven through all request sequences within the bound; requested time at the source = max(t-d,start) / n-th previous request - extra / min(t,newest), composed along the chain. The scheduler clause is decided by C02's request-time monitor on the same chains inside Composition.run. Also Info objects of a connected composition re-used by a second, later composition (connected or run in between) and chains explored after a first use in the same process.",
         "Trusted: reference shift maps; start time = declared time of the source output; depth bounds 6/5/4 (quick) 9/8/7 (thorough) for chains with DelayToPull/DelayToPush.",
         "DESIGN.md section 4, C13",
     ),
